@@ -564,6 +564,11 @@ HardWithinScan == \A j \in Jobs : (Periodic /\ job[j].incache /\ ~job[j].ready /
 VictimGone == [][\A j \in Jobs : (job[j].out # "timelimit" /\ job'[j].out = "timelimit"
                                    /\ job[j].owner \in PoolPids(pool))
                        => w'[job[j].owner].ex # None]_vars
+(* delivery: a whole scan leaves no job behind that was due when it ran *)
+HardDelivered == [][act'.name = "Scan" => \A j \in Jobs : j \in HardHit => job'[j].out = "timelimit"]_vars
+SoftDelivered == [][act'.name = "Scan" => \A j \in Jobs :
+                       (SoftDue(j) /\ j \notin HardHit /\ job[j].owner \in PoolPids(pool))
+                           => job'[j].tsoft = job[j].tsoft + 1]_vars
 SoftOnce == \A j \in Jobs : job[j].tsoft <= 1
 SoftOnlyIfDue == [][\A j \in Jobs : job'[j].tsoft > job[j].tsoft =>
                        /\ job[j].soft # 0 /\ job[j].tacc # None /\ now >= Val(job[j].tacc) + job[j].soft
